@@ -14,7 +14,7 @@ use crate::Ctx;
 use narsese::enum_narsese::{Budget, Narsese, Punctuation, Stamp, Truth};
 use std::time::Instant;
 
-pub const ENTRIES: [&str; 7] = ["narsese", "narsese-chars", "truth", "budget", "stamp", "punctuation", "truth-chars"];
+pub const ENTRIES: [&str; 10] = ["narsese", "narsese-chars", "truth", "budget", "stamp", "punctuation", "truth-chars", "budget-chars", "stamp-chars", "punctuation-chars"];
 
 /// run one entry point; returns ("ok"|"err", None) or (_, Some(panic))
 pub fn call_entry(f: Fmt, entry: &str, s: &str) -> Result<&'static str, String> {
@@ -186,7 +186,7 @@ pub fn probe(ctx: &mut Ctx, f: Fmt, s: &str, family: &str) {
     }
     for (i, entry) in ENTRIES.iter().enumerate() {
         // the *-chars variants are sampled
-        if i == 6 && n_chars % 4 != 0 {
+        if i >= 6 && n_chars % 4 != i - 6 {
             continue;
         }
         #[cfg(feature = "hooks")]
